@@ -181,7 +181,7 @@ def Agrees (ps : List Param) (name : Name) (st : St) (c : Call) (r : Except Err 
       st'.macros = setArgs st.macros name (List.zipWith mkArg ps args) ∧ st'.depth = st.depth ∧ st'.events = st.events
 
 theorem cursor_step {st : St} {r : List Tok} (n : Nat) (hctx : st.ctx = []) (hraw : st.raw = r)
-    (hpl : ∀ x ∈ r, PlainTok st.macros x) :
+    (hpl : ∀ t r', r = t :: r' → PlainTok st.macros t) :
     ∃ st1, exec (n + 4) (.argLoop false) st = .ok st1 ∧ st1.ctx = [] ∧ st1.macros = st.macros ∧
       st1.depth = st.depth ∧ st1.events = st.events ∧
       ((r = [] ∧ st1.rt = eofTok ∧ st1.raw = []) ∨ (∃ t r', r = t :: r' ∧ st1.rt = t ∧ st1.raw = r')) := by
@@ -189,7 +189,7 @@ theorem cursor_step {st : St} {r : List Tok} (n : Nat) (hctx : st.ctx = []) (hra
   | nil =>
     exact ⟨_, argnext_eof n st hctx hraw, hctx, rfl, rfl, rfl, .inl ⟨rfl, rfl, hraw⟩⟩
   | cons t r' =>
-    exact ⟨_, argnext_plain n st hctx t r' hraw (hpl t (List.mem_cons_self ..)), hctx, rfl, rfl, rfl,
+    exact ⟨_, argnext_plain n st hctx t r' hraw (hpl t r' rfl), hctx, rfl, rfl, rfl,
       .inr ⟨t, r', rfl, rfl, rfl⟩⟩
 
 theorem collect_ne_fuel (ps : List Param) : ∀ (L : List Tok) (i paren : Nat) (cur : List Tok) (done : List (List Tok)),
@@ -233,9 +233,81 @@ theorem agrees_step {ps : List Param} {name : Name} {st st2 : St} {c c2 : Call}
     rw [hstep _ (Nat.le_max_right ..)]
     exact lift hn0 (by intro hh; cases hh) _ (Nat.le_max_left ..)
 
+/-- the tokens `collect` looks at are plain: all of them when it rejects, those up to the closing
+parenthesis when it accepts -/
+def PlainFor (ms : List Macro) (L : List Tok) (res : Except Err (List (List Tok) × List Tok)) : Prop :=
+  match res with
+  | .ok (_, rest) => ∀ x ∈ L.take (L.length - rest.length), PlainTok ms x
+  | .error _ => ∀ x ∈ L, PlainTok ms x
+
+theorem plainFor_of_all {ms : List Macro} {L : List Tok} (h : ∀ x ∈ L, PlainTok ms x)
+    (res : Except Err (List (List Tok) × List Tok)) : PlainFor ms L res := by
+  unfold PlainFor
+  cases res with
+  | error e => exact h
+  | ok x => intro y hy; exact h y (List.mem_of_mem_take hy)
+
+theorem collect_rest_lt (ps : List Param) : ∀ (L : List Tok) (i paren : Nat) (cur : List Tok) (done args : List (List Tok))
+    (rest : List Tok), collect ps i paren cur done L = .ok (args, rest) → rest.length < L.length := by
+  intro L
+  induction L with
+  | nil => intro i paren cur done args rest h; simp [collect] at h
+  | cons t r ih =>
+    intro i paren cur done args rest h
+    unfold collect at h
+    split at h
+    · split at h
+      · split at h
+        · cases h
+        · split at h
+          · cases h
+          · cases h; simp
+      · have := ih _ _ _ _ _ _ h; simp; omega
+    · have := ih _ _ _ _ _ _ h; simp; omega
+
+theorem plainFor_head {ms : List Macro} {ps : List Param} {t : Tok} {r : List Tok} {i paren : Nat} {cur : List Tok}
+    {done : List (List Tok)} (h : PlainFor ms (t :: r) (collect ps i paren cur done (t :: r))) : PlainTok ms t := by
+  unfold PlainFor at h
+  cases hres : collect ps i paren cur done (t :: r) with
+  | error e => rw [hres] at h; exact h t (List.mem_cons_self ..)
+  | ok x =>
+    obtain ⟨a, rest⟩ := x
+    rw [hres] at h
+    have := collect_rest_lt ps _ _ _ _ _ _ _ hres
+    simp only [List.length_cons] at this
+    apply h
+    rw [show (t :: r).length - rest.length = (r.length - rest.length) + 1 by simp; omega]
+    exact List.mem_cons_self ..
+
+theorem plainFor_step {ms : List Macro} {ps : List Param} {t : Tok} {r : List Tok} {i paren i' paren' : Nat}
+    {cur cur' : List Tok} {done done' : List (List Tok)}
+    (heq : collect ps i paren cur done (t :: r) = collect ps i' paren' cur' done' r)
+    (h : PlainFor ms (t :: r) (collect ps i paren cur done (t :: r))) :
+    PlainFor ms r (collect ps i' paren' cur' done' r) ∧ (∀ t' r', r = t' :: r' → PlainTok ms t') := by
+  rw [heq] at h
+  unfold PlainFor at h ⊢
+  cases hres : collect ps i' paren' cur' done' r with
+  | error e =>
+    rw [hres] at h
+    exact ⟨fun x hx => h x (List.mem_cons_of_mem _ hx), fun t' r' hr => h t' (by rw [hr]; simp)⟩
+  | ok x =>
+    obtain ⟨a, rest⟩ := x
+    rw [hres] at h
+    have hlt := collect_rest_lt ps _ _ _ _ _ _ _ hres
+    have hk : (t :: r).length - rest.length = (r.length - rest.length) + 1 := by simp; omega
+    simp only at h ⊢
+    rw [hk, List.take_succ_cons] at h
+    refine ⟨fun x hx => h x (List.mem_cons_of_mem _ hx), ?_⟩
+    intro t' r' hr
+    apply h
+    apply List.mem_cons_of_mem
+    subst hr
+    rw [show (t' :: r').length - rest.length = (r'.length - rest.length) + 1 by simp at hlt ⊢; omega]
+    exact List.mem_cons_self ..
+
 theorem efLoop_collect (ps : List Param) (name : Name) : ∀ (L : List Tok) (e : EF) (st : St) (CUR : List Tok)
     (DONE : List (List Tok)), Refines ps e CUR DONE → e.m.name = name → st.ctx = [] → st.depth ≤ e.depth →
-    e.i < ps.length → (∀ x ∈ L, PlainTok st.macros x) → Cursor e st L →
+    e.i < ps.length → PlainFor st.macros L (collect ps e.i e.paren CUR DONE L) → Cursor e st L →
     Agrees ps name st (.efLoop e) (collect ps e.i e.paren CUR DONE L) := by
   intro L
   induction L with
@@ -253,8 +325,7 @@ theorem efLoop_collect (ps : List Param) (name : Name) : ∀ (L : List Tok) (e :
     rcases hcur with ⟨h, _, _⟩ | ⟨t', r', h, het, hraw⟩
     · cases h
     · cases h
-      have hpt : PlainTok st.macros t := hpl t (List.mem_cons_self ..)
-      have hplr : ∀ x ∈ r, PlainTok st.macros x := fun x hx => hpl x (List.mem_cons_of_mem _ hx)
+      have hpt : PlainTok st.macros t := plainFor_head hpl
       have hne : e.t.kind ≠ .TEOF := by rw [het]; exact hpt.2.2.2.1
       have hparams := hr.params
       have hnf := collect_ne_fuel ps (t :: r) e.i e.paren CUR DONE
@@ -286,8 +357,10 @@ theorem efLoop_collect (ps : List Param) (name : Name) : ∀ (L : List Tok) (e :
           have hi2 : e.i + 1 < ps.length := by
             have : e.i + 1 ≠ ps.length := fun hh => hf' (.inr hh)
             omega
-          unfold collect
-          simp only [hc', and_self, ↓reduceIte, hf']
+          have heq : collect ps e.i e.paren CUR DONE (t :: r) = collect ps (e.i + 1) 0 [] (CUR.reverse :: DONE) r := by
+            rw [collect]; simp only [hc', and_self, ↓reduceIte, hf']
+          obtain ⟨hpfr, hplr⟩ := plainFor_step heq hpl
+          rw [heq]
           -- the state after the `argnext` that follows the comma
           obtain ⟨st1, _, hc1, hm1, hd1, he1, hcur1⟩ := cursor_step 0 hctx hraw hplr
           let e3 : EF := { e with depth := st.depth, done := curArg e :: e.done, i := e.i + 1, t := st1.rt,
@@ -315,13 +388,17 @@ theorem efLoop_collect (ps : List Param) (name : Name) : ∀ (L : List Tok) (e :
               List.reverse_append, hr.done, curArg_eq hr]
             simp [hr.ndone]
           have := ih e3 st1 [] (CUR.reverse :: DONE) hr3 hname hc1 (by show st1.depth ≤ st.depth; omega)
-            hi2 (by rw [hm1]; exact hplr) hcur1
+            hi2 (by show PlainFor st1.macros r (collect ps (e.i + 1) e.paren [] (CUR.reverse :: DONE) r)
+                    rw [hm1, hc'.1]; exact hpfr) hcur1
           simpa [e3, hc'.1] using this
       · -- the token belongs to the argument
         have hc' : ¬ (e.paren = 0 ∧ (t.kind = .TRPAREN ∨ (t.kind = .TCOMMA ∧ (ps.getD e.i default).fvar = false))) := by
           unfold breakCond at hc; rw [het, hparams] at hc; exact hc
-        unfold collect
-        simp only [hc', ↓reduceIte]
+        have heq : collect ps e.i e.paren CUR DONE (t :: r) = collect ps e.i
+            (if t.kind = .TLPAREN then e.paren + 1 else if t.kind = .TRPAREN then e.paren - 1 else e.paren) (t :: CUR) DONE r := by
+          rw [collect]; simp only [hc', ↓reduceIte]
+        obtain ⟨hpfr, hplr⟩ := plainFor_step heq hpl
+        rw [heq]
         have hparen : nextParen e = (if t.kind = .TLPAREN then e.paren + 1 else if t.kind = .TRPAREN then e.paren - 1 else e.paren) := by
           unfold nextParen; rw [het]
         have hstr : nextStr e = if (ps.getD e.i default).fstr then (t :: CUR).reverse.foldl stringize [c! '"'] else [c! '"'] := by
@@ -332,7 +409,7 @@ theorem efLoop_collect (ps : List Param) (name : Name) : ∀ (L : List Tok) (e :
         · -- stored (after `expand` has declined it)
           have hp' : (ps.getD e.i default).ftok = true := by rw [← hparams]; exact hp
           let sx : St := { st with rb := false, rt := paint t }
-          have hplx : ∀ x ∈ r, PlainTok sx.macros x := hplr
+          have hplx : ∀ t' r', r = t' :: r' → PlainTok sx.macros t' := hplr
           obtain ⟨st2, hst2, hc2, hm2, hd2, he2, hcur2⟩ := cursor_step 0 (st := sx) hctx hraw hplx
           let e4 : EF := { e with depth := st.depth, paren := nextParen e, str := nextStr e, cur := paint t :: e.cur,
                                   t := st2.rt }
@@ -357,7 +434,8 @@ theorem efLoop_collect (ps : List Param) (name : Name) : ∀ (L : List Tok) (e :
             · show nextStr e = if (ps.getD e.i default).fstr = true then List.foldl stringize [c! '"'] (t :: CUR).reverse else [c! '"']
               exact hstr
           have := ih e4 st2 (t :: CUR) DONE hr4 hname hc2 (by show st2.depth ≤ st.depth; rw [hd2]; exact Nat.le_refl _)
-            hi (by rw [hm2]; exact hplr) hcur2
+            hi (by show PlainFor st2.macros r (collect ps e.i (nextParen e) (t :: CUR) DONE r)
+                   rw [hm2, hparen]; exact hpfr) hcur2
           simpa [e4, hparen] using this
         · -- not stored (the parameter is not used plainly)
           have hp0 : (e.m.params.getD e.i default).ftok = false := by
@@ -385,21 +463,24 @@ theorem efLoop_collect (ps : List Param) (name : Name) : ∀ (L : List Tok) (e :
             · show nextStr e = if (ps.getD e.i default).fstr = true then List.foldl stringize [c! '"'] (t :: CUR).reverse else [c! '"']
               exact hstr
           have := ih e4 st2 (t :: CUR) DONE hr4 hname hc2 (by show st2.depth ≤ st.depth; rw [hd2]; exact Nat.le_refl _)
-            hi (by rw [hm2]; exact hplr) hcur2
+            hi (by show PlainFor st2.macros r (collect ps e.i (nextParen e) (t :: CUR) DONE r)
+                   rw [hm2, hparen]; exact hpfr) hcur2
           simpa [e4, hparen] using this
 
 
 /-- **`expandfunc` runs `collect`** on a plain invocation of a macro with at least one parameter:
 same verdict, same tokens consumed, and the stored arguments are `mkArg` of what `collect` cut out. -/
-theorem expandfunc_collect (m : Macro) (st : St) (hctx : st.ctx = []) (hpl : ∀ x ∈ st.raw, PlainTok st.macros x)
-    (hne : 0 < m.params.length) :
+theorem expandfunc_collect (m : Macro) (st : St) (hctx : st.ctx = [])
+    (hpl : PlainFor st.macros st.raw (collect m.params 0 0 [] [] st.raw)) (hne : 0 < m.params.length) :
     Agrees m.params m.name st (.expandfunc m) (collect m.params 0 0 [] [] st.raw) := by
-  obtain ⟨st1, hst1, hc1, hm1, hd1, he1, hcur1⟩ := cursor_step 0 hctx rfl hpl
+  have hhead : ∀ t r', st.raw = t :: r' → PlainTok st.macros t := by
+    intro t r' hr; rw [hr] at hpl; exact plainFor_head hpl
+  obtain ⟨st1, hst1, hc1, hm1, hd1, he1, hcur1⟩ := cursor_step 0 hctx rfl hhead
   let e0 : EF := { m := m, i := 0, depth := st.depth, paren := 0, t := st1.rt, done := [], cur := [], str := [c! '"'] }
   have hstep : ∀ k, 4 ≤ k → exec (k + 1) (.expandfunc m) st = exec k (.efLoop e0) st1 := by
     intro k hk
     obtain ⟨d, rfl⟩ := Nat.exists_eq_add_of_le hk
-    obtain ⟨st1', ha, _, _, _, _, _⟩ := cursor_step d hctx rfl hpl
+    obtain ⟨st1', ha, _, _, _, _, _⟩ := cursor_step d hctx rfl hhead
     have hsame : st1' = st1 := by
       have h1 := lift ha (by intro hh; cases hh) (4 + d) (by omega)
       have h2 := lift hst1 (by intro hh; cases hh) (4 + d) (by omega)
@@ -423,6 +504,6 @@ theorem expandfunc_collect (m : Macro) (st : St) (hctx : st.ctx = []) (hpl : ∀
     · exact .inl ⟨h1, h2, h3⟩
     · exact .inr ⟨t, r', h1, h2, h3⟩
   exact efLoop_collect m.params m.name st.raw e0 st1 [] [] hr0 rfl hc1 (by show st1.depth ≤ st.depth; omega) hne
-    (by rw [hm1]; exact hpl) hcur
+    (by show PlainFor st1.macros st.raw (collect m.params 0 0 [] [] st.raw); rw [hm1]; exact hpl) hcur
 
 end CprocVerif.PP
